@@ -196,6 +196,7 @@ def oracle(ctx):
     round4_probes(ctx)
     infinite_mask_probe(ctx)
     reassigned_attribute_probe(ctx)
+    tied_weights_probe(ctx)
 
 
 def backward_options_probe(ctx):
@@ -521,6 +522,53 @@ def reassigned_attribute_probe(ctx):
         elif outs[1] is None or not float((outs[1] - ref).abs().max()) <= 1e-9:
             ctx.fail("oracle", "rootgrad:attribute-reassigned-before-backward", {"object": kind, "history": "y = rootfinder(m.resid, y0); m.a = new tensor; grad(y, old tensor)"},
                      None if outs[1] is None else outs[1].tolist(), ref.tolist())
+
+
+def tied_weights_probe(ctx):
+    """a torch.nn.Module with ONE Parameter registered under two names (tied weights), used through both: the implicit gradient
+    w.r.t. the shared parameter counts both uses (finding F36, fixed in 207265b; round-6 seed C04/15 undid the fix), rootfinder and
+    equilibrium, dense and Krylov backward"""
+    from xitorch.optimize import rootfinder, equilibrium
+
+    class Tied(torch.nn.Module):
+        def __init__(self, w, c):
+            super().__init__()
+            self.w1 = w
+            self.w2 = w
+            self.c = c
+
+        def resid(self, y):
+            return y + 0.3 * torch.tanh(self.w1 * y) + 0.2 * self.w2 * y * y - self.c
+
+        def fixed(self, y):
+            return self.c - 0.3 * torch.tanh(self.w1 * y) - 0.2 * self.w2 * y * y
+    g = torch.Generator().manual_seed(ctx.seed + 89)
+    for n, bck in ((3, {}), (7, {"method": "bicgstab", "rtol": 1e-12, "atol": 1e-14})):
+        w = torch.nn.Parameter(torch.rand(n, dtype=DT, generator=g) + 0.5)
+        c = torch.nn.Parameter(torch.rand(n, dtype=DT, generator=g))
+        m = Tied(w, c)
+        for fnl in ("rootfinder", "equilibrium"):
+            ctx.count(("tied-weights", fnl, n), nontrivial=True)
+            try:
+                with warnings.catch_warnings():
+                    warnings.simplefilter("ignore")
+                    y = rootfinder(m.resid, torch.zeros(n, dtype=DT), f_tol=1e-13, bck_options=dict(bck)) if fnl == "rootfinder" \
+                        else equilibrium(m.fixed, torch.zeros(n, dtype=DT), f_tol=1e-13, bck_options=dict(bck))
+                    gw, gc = torch.autograd.grad((y * y).sum(), (w, c))
+            except Exception as e:
+                ctx.fail("oracle", "rootgrad:tied-weights:exception", {"functional": fnl, "n": n}, repr(e)[:300], "gradients")
+                continue
+            yd = y.detach()
+            f = lambda yy, ww, cc: yy + 0.3 * torch.tanh(ww * yy) + 0.2 * ww * yy * yy - cc
+            J = torch.autograd.functional.jacobian(lambda yy: f(yy, w.detach(), c.detach()), yd)
+            lam = torch.linalg.solve(J.T, -2 * yd)
+            w1 = w.detach().clone().requires_grad_()
+            c1 = c.detach().clone().requires_grad_()
+            rw, rc = torch.autograd.grad(f(yd, w1, c1), (w1, c1), grad_outputs=lam)
+            err = max(float((gw - rw).abs().max()), float((gc - rc).abs().max()))
+            if not err <= 1e-7:
+                ctx.fail("oracle", "rootgrad:tied-weights", {"functional": fnl, "n": n, "bck_options": bck}, {"max_error": err},
+                         "implicit-function-theorem gradient counting both names of the shared Parameter")
 
 
 def search(ctx):
